@@ -60,6 +60,7 @@ var Props = map[string]PropRunner{
 		p := e0Profile("C07", "C07")
 		p.CodecSwarm = true
 		p.Weights[opTamper] = 40
+		p.Weights[opRawEntry] = 10
 		p.Weights[opAlgebra] = 0
 		p.Weights[opSpecial] = 0
 		RunE0(r, p)
@@ -71,6 +72,7 @@ var Props = map[string]PropRunner{
 		p := e0Profile("C08", "C08")
 		p.CodecSwarm = true
 		p.Weights[opPublish] = 10
+		p.Weights[opRawEntry] = 14
 		RunE0(r, p)
 	},
 	"C15": func(r *Run) {
@@ -89,6 +91,7 @@ var Props = map[string]PropRunner{
 		p := e0Profile("C18", "C18")
 		p.LinkKey = true
 		p.Weights[opReader] = 10
+		p.Weights[opRawEntry] = 12
 		p.Weights[opAlgebra] = 0
 		RunE0(r, p)
 	},
